@@ -143,6 +143,16 @@ macro_rules! dual_laws {
             let raw = build_raw::<64, { $s2 }>(h)?;
             ds.push(must("from_raw_form", || <$dual>::from_raw_form(&raw))?);
         }
+        // the same values through init_from_raw_form on objects that held another member of the family
+        let mut hs_ext: Vec<RawH> = hs.clone();
+        for i in 0..hs.len() {
+            let mut dest = ds[(i + hs.len() - 1) % hs.len()];
+            let raw = build_raw::<64, { $s2 }>(&hs[i])?;
+            must("init_from_raw_form", || dest.init_from_raw_form(&raw))?;
+            ds.push(dest);
+            hs_ext.push(hs[i].clone());
+        }
+        let hs = &hs_ext;
         let n = ds.len();
         for i in 0..n {
             for j in 0..n {
@@ -226,8 +236,25 @@ pub fn eval(case: &Case, st: &mut Stats) -> Result<(), String> {
         dual_laws!(DualFuzzyHash, 32, hs, st);
         st.class("short");
     } else {
-        let objs: Vec<ssdeep::LongRawFuzzyHash> = hs.iter().map(|h| build_raw::<64, 64>(h)).collect::<Result<_, _>>()?;
-        plain_laws!(objs, hs, "LongRawFuzzyHash");
+        let mut objs: Vec<ssdeep::LongRawFuzzyHash> = hs.iter().map(|h| build_raw::<64, 64>(h)).collect::<Result<_, _>>()?;
+        // the same values obtained by converting into destinations that held another member of the family
+        let mut hs2 = hs.clone();
+        for i in 0..hs.len() {
+            let prev = objs[(i + hs.len() - 1) % hs.len()];
+            if hs[i].bh2.len() <= 32 {
+                let short = build_raw::<64, 32>(&hs[i])?;
+                let mut dest = prev;
+                must("into_mut_long_form", || short.into_mut_long_form(&mut dest))?;
+                objs.push(dest);
+                hs2.push(hs[i].clone());
+            }
+            let d = must("from_raw_form", || LongDualFuzzyHash::from_raw_form(&objs[i]))?;
+            let mut dest = prev;
+            must("into_mut_raw_form", || d.into_mut_raw_form(&mut dest))?;
+            objs.push(dest);
+            hs2.push(hs[i].clone());
+        }
+        plain_laws!(objs, hs2, "LongRawFuzzyHash (incl. objects converted into used destinations)");
         let cs: Vec<RawH> = hs.iter().map(|h| h.collapsed()).collect();
         let objs: Vec<ssdeep::LongFuzzyHash> = cs.iter().map(|h| build_norm::<64, 64>(h)).collect::<Result<_, _>>()?;
         plain_laws!(objs, cs, "LongFuzzyHash");
